@@ -346,6 +346,26 @@ class _FlatSubs(ast.NodeTransformer):
         return node
 
 
+class _FoldLiteralIndex(ast.NodeTransformer):
+    """(a, b)[1] -> b: a constant index into a tuple / list display selects that element."""
+
+    def visit_Subscript(self, node: ast.Subscript):
+        self.generic_visit(node)
+        v, i = node.value, node.slice
+        if isinstance(v, (ast.Tuple, ast.List)) and isinstance(i, ast.Constant) and isinstance(i.value, int) and not isinstance(i.value, bool) \
+                and -len(v.elts) <= i.value < len(v.elts) and not any(isinstance(x, ast.Starred) for x in v.elts):
+            return v.elts[i.value]
+        return node
+
+
+def fold_literal_index(e: Optional[ast.AST]) -> Optional[ast.AST]:
+    if e is None:
+        return None
+    from .inline import clone
+
+    return _FoldLiteralIndex().visit(clone(e))
+
+
 def flat_subs(e: Optional[ast.AST]) -> Optional[ast.AST]:
     if e is None:
         return None
